@@ -156,7 +156,7 @@ def _index(ctx, p, rng):
             continue
         icls = _idx_class(idx)
         data = _vals(rng, (D, P) + shape, vk)
-        x = UTPM(gen.relayout(data, gen.LAYOUTS[int(rng.integers(5))]))
+        x = UTPM(gen.relayout(data, gen.LAYOUTS[int(rng.integers(len(gen.LAYOUTS)))]))
         plain = np.zeros(shape)
         # ---- getitem: values, view-ness
         try:
@@ -189,7 +189,7 @@ def _index(ctx, p, rng):
         # ---- setitem with the four right-hand-side kinds
         tshape = plain[idx].shape
         for rk in ('utpm', 'bcast', 'ndarray', 'scalar', 'alias'):
-            x = UTPM(gen.relayout(data, gen.LAYOUTS[int(rng.integers(5))]))
+            x = UTPM(gen.relayout(data, gen.LAYOUTS[int(rng.integers(len(gen.LAYOUTS)))]))
             model = data.copy()
             if rk == 'alias':
                 # right-hand side is a view of the container's own zeroth coefficient (NumPy assignment is overlap-safe)
